@@ -23,7 +23,8 @@
 
    Behaviour tokens (b):  C continue/None, F FAIL_AND_CONTINUE, X FAIL_SUBTEST,
      K SKIP, R REPEAT, S STOP, E exception, G exception listed in
-     failure_exceptions (when the setting fexc is on), I invalid return value,
+     failure_exceptions (when the setting fexc is on), I invalid return value
+     (J: a falsy invalid return value),
      T timeout, A operator abort arrives during this body (the body is killed
      unless it is a teardown phase, which is left alone and continues).
    Measurement tokens (m): n none declared, p pass, m marginal pass, f fail,
@@ -87,6 +88,7 @@ BodyResult(b, insub, td) ==
     [] b = "E" -> "EXC"
     [] b = "G" -> "GEXC"
     [] b = "I" -> "EXC"                                      \* "a non-PhaseResult return value"
+    [] b = "J" -> "EXC"                                      \* ... also a falsy one (False, 0, '', [])
     [] b = "T" -> "TIMEOUT"
     [] b = "A" -> IF td THEN "CONTINUE" ELSE "KILL"
 
